@@ -542,6 +542,9 @@ func (x *cliExec) applyDisk(d *diskStep) {
 		x.w.PutFile(ents[d.Other%len(ents)], cur)
 	case "delete":
 		x.w.DeleteFile(path)
+	case "dir":
+		x.w.DeleteFile(path)
+		x.w.MkdirAllRaw(path)
 	}
 }
 
